@@ -421,6 +421,9 @@ BTreeItems_subscript(BTreeItems *self, PyObject* subscript)
 {
     Py_ssize_t len = BTreeItems_length_or_nonzero(self, 0);
 
+    if (len < 0)
+        return NULL;
+
     if (PyIndex_Check(subscript))
     {
         Py_ssize_t i = PyNumber_AsSsize_t(subscript, PyExc_IndexError);
